@@ -319,13 +319,38 @@ FUNCTIONS.update({
 })
 
 FUNCTIONS.update({
+  # the next jitter is armed on the low-resolution timer queue, between _jitter_min and _jitter_max ticks from now,
+  # with this balancer's own _Jitter as the action; nothing of the aperture itself is touched
   'ApertureBalancerSink._ScheduleNextJitter': dict(
-    cls='ApertureBalancerSink', requires=[], ensures=[], modifies=['ApertureBalancerSink._next_jitter'], allocates=True, trusted=True,
-    notes='schedules _Jitter on the low-resolution timer queue (C10 contract of Schedule); jitter itself is not under contract'),
+    cls='ApertureBalancerSink', returns='none',
+    locals={'next_jitter': 'int', 'now': 'real'},
+    requires=['self._jitter_min <= self._jitter_max'],
+    ensures=['self._next_jitter is not None',
+             # what it creates is a timer entry and a cancel closure: no balancer node; only the timer queue's own event may get set
+             'forall_ref(r, Node, allocated(r) == old(allocated(r)), r.index)',
+             'forall_ref(v, Event, implies(v != LOW_RESOLUTION_TIMER_QUEUE._event, v.flag == old(v.flag)), v.flag)'],
+    modifies=['ApertureBalancerSink._next_jitter', 'set[TimerEntry]', 'TimerEntry.cancelled', 'TimerEntry.action', 'TimerEntry.deadline', 'TimerEntry.seq',
+              'TimerQueue._seq', 'Event.flag', '$cls'],
+    allocates='any',
+    ghost=[
+      # the round is really armed: one more entry on the low-resolution queue, none removed (kept out of the exported
+      # contract so that callers' obligations stay within what both solvers parse)
+      {'after': 'self._next_jitter = LOW_RESOLUTION_TIMER_QUEUE.Schedule(now + next_jitter, self._Jitter)', 'do': [
+        'prove(not subset(LOW_RESOLUTION_TIMER_QUEUE._queue.g_mem, old(setof(LOW_RESOLUTION_TIMER_QUEUE._queue.g_mem))) and '
+        '      subset(old(setof(LOW_RESOLUTION_TIMER_QUEUE._queue.g_mem)), LOW_RESOLUTION_TIMER_QUEUE._queue.g_mem), "next-round-armed-on-the-timer-queue")']},
+      {'after': 'next_jitter = random.randint(self._jitter_min, self._jitter_max)', 'do': [
+        'prove(self._jitter_min <= next_jitter and next_jitter <= self._jitter_max, "jitter-delay-within-configured-bounds")']},
+    ],
+    props=['C06'],
+  ),
   # construction: both halves empty, configuration taken from the sink properties
   'ApertureBalancerSink.__init__': dict(
     cls='ApertureBalancerSink', params={'next_provider': 'NextProvider', 'sink_properties': 'SinkPropsX', 'global_properties': 'any'}, returns='none',
     requires=['allocated(sink_properties) and allocated(sink_properties.server_set_provider)', 'sink_properties.min_size >= 0', 'sink_properties.min_load <= sink_properties.max_load',
+              # random.randint(jitter_min, jitter_max) in _ScheduleNextJitter needs a non-empty range
+              'sink_properties.jitter_min_sec <= sink_properties.jitter_max_sec',
+              # the module-level timer queue exists before any balancer does
+              'allocated(LOW_RESOLUTION_TIMER_QUEUE._event)',
               'forall_ref(r, Node, not allocated(r), r.index)', 'forall_ref(r, Node, not r.g_inq, r.g_inq)'],
     ensures=['ApAll(self)', 'self._size == 0', 'forall(e, "any", not (e in self._idle_endpoints))', 'self._total == 0',
              'self._min_size == sink_properties.min_size and self._max_size == sink_properties.max_size',
@@ -340,3 +365,37 @@ EXTERNS.update({
   'Ema': dict(params=[('window', 'int')], returns='EmaX', fresh=True, allocates=True, ensures=['result is not None']),
   'MonoClock': dict(params=[], returns='ClockX', fresh=True, allocates=True, ensures=['result is not None']),
 })
+
+
+# Not loaded (kept for the next attempt): a contract for one jitter round.  All of its obligations except three
+# exit-invariant conjuncts (idle/heap agreement after `_pending_endpoints.discard`) discharge; those three time out in z3 and
+# cvc5, so the unit is not registered and `_Jitter` stays outside the verified set (DESIGN 9.7).
+_PENDING = {
+  # one jitter round: activate one idle member (kept pending), wait for it to open, and only if that succeeded retire
+  # one active member; whatever happens the pending mark is removed and the next round is armed.  The partition and
+  # the server-table agreement hold at the yield and at the end.
+  'ApertureBalancerSink._Jitter': dict(
+    cls='ApertureBalancerSink', returns='none', aspect='ap', conc='MembersAp',
+    locals={'ar': 'AsyncResult', 'endpoint': 'any'},
+    requires=['ApAll(self)', 'self._jitter_min <= self._jitter_max'],
+    ensures=['ApAll(self)'],
+    raises={'Exception': dict(ensures=['ApAll(self)'])},
+    modifies=_AP_MOD + ['ApertureBalancerSink._next_jitter', 'set[TimerEntry]', 'TimerEntry.cancelled', 'TimerEntry.action', 'TimerEntry.deadline', 'TimerEntry.seq',
+                        'TimerQueue._seq', 'Event.flag', 'HeapBalancerSink.g_removed', 'Channel.g_closes'],
+    allocates='any',
+    yields=[{'at': 'ar.wait()'}],
+    ghost=[
+      {'after': 'ar, endpoint = self._TryExpandAperture(True)', 'do': [
+        'prove(self._size == old(self._size) or self._size == old(self._size) + 1, "jitter-grows-by-at-most-one")',
+        'g_size_after_expand = self._size']},
+      {'before': 'self._ContractAperture(True)', 'do': ['g_size_before_contract = self._size']},
+      {'after': 'self._ContractAperture(True)', 'do': [
+        'prove(self._size == g_size_before_contract or (self._size == g_size_before_contract - 1 and self._size >= self._min_size), "jitter-never-contracts-below-min-size")']},
+      {'before': 'self._pending_endpoints.discard(endpoint)', 'do': ['g_idle = setof(self._idle_endpoints)']},
+      {'after': 'self._pending_endpoints.discard(endpoint)', 'do': [
+        'prove(set_eq(self._idle_endpoints, g_idle), "clearing-the-pending-mark-leaves-the-idle-half-alone")',
+        'prove(not (endpoint in self._pending_endpoints), "pending-mark-removed")']},
+    ],
+    props=['C06'],
+  ),
+}
